@@ -27,8 +27,16 @@ def get_parser() -> parser_lib.Parser:
     return _PARSER
 
 
+# optional callable applied to the token store of every freshly parsed model (checks.store_replay lays the store
+# out in adversarial block shapes with it)
+LAYOUT: Any = None
+
+
 def parse(text: str, target: Any = None, **kw: Any) -> Any:
-    return get_parser().parse(text, target or models.File, **kw)
+    m = get_parser().parse(text, target or models.File, **kw)
+    if LAYOUT is not None:
+        LAYOUT(m.token_store)
+    return m
 
 
 def text_of(model: Any) -> str:
